@@ -543,6 +543,8 @@ func c13HsRun(c c13HsCase, n int) string {
 			qp := fmt.Sprintf("/dev/shm/verif_c13_%d_%d_queue", os.Getpid(), n)
 			bp := fmt.Sprintf("/dev/shm/verif_c13_%d_%d_buffer", os.Getpid(), n)
 			cleanup = append(cleanup, qp, bp)
+			os.Remove(qp) // (files of a killed earlier run whose process id was reused)
+			os.Remove(bp)
 			qm, err := createQueueManager(qp, 8)
 			if err != nil {
 				return "harness: createQueueManager: " + err.Error()
